@@ -5,6 +5,7 @@ open Lean Pywbem.Proto Pywbem.Model Pywbem.Model.CimJson Pywbem.Model.XmlText
 
 /-! C01 driver.  ops:
   {"op":"enc","obj":obj,"codec":{…}}   -> {"xml":cps}                          ser (encObj o)
+  {"op":"encp","obj":path obj,"ih":b,"ins":b,"codec":{…}} -> {"xml":cps}       ser (encPathOpt ih ins p)
   {"op":"dec","tree":tt,"codec":{…}}   -> {"ok":obj} | {"exc":…}               decode 8 tree
   {"op":"par","s":cps}                 -> {"tree":tt|null}                     XmlParse.par (proved against Xml.ser)
   {"op":"txt","s":cps}                 -> {"text":cps|null,"attr":cps|null}    wireText / wireAttr
@@ -33,6 +34,11 @@ def handle (j : Json) : Json :=
     match objOfJson (getField j "obj") with
     | some o => Json.mkObj [("xml", cpsToJson (encObj (codecOfJson (getField j "codec")) o).ser)]
     | none => Json.mkObj [("bad", "obj")]
+  | some "encp" =>
+    match objOfJson (getField j "obj") with
+    | some (.path p) => Json.mkObj [("xml", cpsToJson (encPathOpt (codecOfJson (getField j "codec"))
+        ((getBool j "ih").getD false) ((getBool j "ins").getD false) p).ser)]
+    | _ => Json.mkObj [("bad", "obj")]
   | some "dec" =>
     match decode (decCodecOfJson (getField j "codec")) 8 (xmlOfJson (getField j "tree")) with
     | .ok o => Json.mkObj [("ok", objToJson o)]
